@@ -2,6 +2,7 @@
     exists s in Bytes^n :  PEG_accepts(s) != RFC_derives(s)     [ and / and-not  Known(s) ]
 Runs inside a worker process (z3 terms are not picklable); everything it needs comes in `task`."""
 import os
+import subprocess
 import time
 
 
@@ -64,14 +65,30 @@ def solve(task):
     s = _mk_solver(z3, task)
     s.add(goal)
     out['assertions'] = len(s.assertions())
-    if task.get('smt2_path'):
-        with open(task['smt2_path'], 'w') as f:
-            f.write('(set-logic QF_BV)\n' + s.to_smt2())
     t1 = time.time()
     r = s.check()
     out['solver_s'] = round(time.time() - t1, 3)
     out['status'] = str(r)
     queries.append({'q': mode, 'result': str(r), 's': out['solver_s']})
+    if task.get('cvc5') and str(r) in ('sat', 'unsat'):
+        # second opinion: the same assertion exported as SMT-LIB2, decided by the cvc5 command line tool
+        path = os.path.join(task['work'], 'q-%s-%s-%d.smt2' % (task['top'], mode, task['n']))
+        with open(path, 'w') as f:
+            f.write('(set-logic QF_BV)\n' + s.to_smt2())
+        t1 = time.time()
+        lim = int(max(120, 20 * out['solver_s']))
+        try:
+            cp = subprocess.run(['cvc5', '--bitblast=eager', '--lang=smt2', path], capture_output=True, text=True, timeout=lim)
+            txt = (cp.stdout + cp.stderr).strip()
+            res = 'error: ' + txt[:200] if ('(error' in txt or cp.returncode != 0) else txt.split('\n')[0].strip()
+        except subprocess.TimeoutExpired:
+            res = 'timeout after %ds' % lim
+        out['cvc5'] = {'result': res, 's': round(time.time() - t1, 3), 'cmd': 'cvc5 --bitblast=eager --lang=smt2 <exported query>'}
+        queries.append({'q': mode + ' (cvc5)', 'result': res, 's': out['cvc5']['s']})
+        try:
+            os.unlink(path)
+        except OSError:
+            pass
     if r == z3.sat:
         m = s.model()
         out['witness'] = _model_bytes(z3, m, alg)
